@@ -3,6 +3,10 @@ package main
 import (
 	"encoding/json"
 	"math/rand"
+	"time"
+
+	"github.com/tdakkota/docker-logql/internal/logql"
+	"github.com/tdakkota/docker-logql/internal/logql/logqlengine"
 
 	"github.com/tdakkota/docker-logql/internal/otelstorage"
 )
@@ -60,5 +64,41 @@ func (famSanitize) Exec(scn int, raw json.RawMessage, t *Trace, _ map[string]str
 		return nil
 	}
 	t.Ev(scn, "Key", F{"out": B(out)})
+	// e2e: a container carrying the Docker label key="v" is selected by {<observed name>="v"}, the one beside it is not.
+	// Names the selector grammar cannot spell (reserved words) and the storage's own label names are out of scope.
+	builtin := map[string]bool{"container": true, "container_id": true, "container_name": true, "container_image": true, "container_image_id": true,
+		"container_command": true, "container_created": true, "container_state": true, "container_status": true, "msg": true}
+	q := "{" + out + "=\"v\"}"
+	if key == "" || builtin[out] {
+		return nil
+	}
+	if _, err := logql.Parse(q, logql.ParseOptions{}); err != nil {
+		return nil
+	}
+	c1 := simpleCtr("c1", "c1", []Frame{{Typ: 1, TS: []int{1700000001, 0}, Msg: B("one")}})
+	c1.LabelKV = [][2][]int{{in.Key, B("v")}}
+	c2 := simpleCtr("c2", "c2", []Frame{{Typ: 1, TS: []int{1700000002, 0}, Msg: B("two")}})
+	c2.LabelKV = [][2][]int{{B("unrelated"), B("v")}}
+	ctrs := []FakeCtr{c1, c2}
+	if scn%2 == 0 {
+		ctrs = []FakeCtr{c2, c1}
+	}
+	eng := dockerEngine(newFakeDocker(nil, scn, ctrs))
+	r := evalWithWatchdog(eng, q, logqlengine.EvalParams{Start: tsOf(Base.Add(-10 * time.Second)), End: tsOf(Base.Add(100 * time.Second)), Limit: -1}, 20*time.Second)
+	if r.Err != nil || r.Panic != nil || r.Hang {
+		t.Ev(scn, "Selected", F{"label": B(out), "selected": false, "others": -1})
+		return nil
+	}
+	sel, others := false, 0
+	if st, ok := r.Data.GetStreamsResult(); ok {
+		for _, e := range flatten(st.Result) {
+			if e.Labels["container"] == "c1" {
+				sel = true
+			} else {
+				others++
+			}
+		}
+	}
+	t.Ev(scn, "Selected", F{"label": B(out), "selected": sel, "others": others})
 	return nil
 }
